@@ -114,6 +114,9 @@ DIRECT = {
     "delay1-const": ("delay", "a", 1, ("el", "k3")),
     "step": ("step", A_, 1),
     "step-lit": ("step", ("lit", "h"), 2),
+    "step-at-3": ("step", ("lit", "h"), 3),           # 0.4-0.1 = 0.30000000000000004 must not count as later than 0.3
+    "delay3": ("delay", "a", 3, ("lit", "d0")),
+    "pulse-at-3": ("pulse", ("lit", "vol"), 3, 0),
     "pulse0": ("pulse", ("lit", "vol"), 1, 0),
     "pulse2": ("pulse", ("lit", "vol"), 1, 2),
     "smooth": ("smooth", A_, ("lit", "T"), ("lit", "i0")),
@@ -142,7 +145,7 @@ def direct_models(tier):
 
 def specs(tier):
     if tier == "quick":
-        return [(0.0, 1.0, 3), (1.0, 0.5, 3), (2.5, 0.25, 3), (0.0, 0.1, 4), (2.5, 1.0, 3), (0.25, 0.5, 3)]
+        return [(0.0, 1.0, 3), (1.0, 0.5, 3), (2.5, 0.25, 3), (0.0, 0.1, 5), (2.5, 1.0, 3), (0.25, 0.5, 3), (1.25, 0.1, 5)]
     return [(0.0, 1.0, 6), (1.0, 1.0, 4), (1.0, 0.5, 6), (2.5, 0.25, 8), (0.0, 0.2, 6), (0.0, 0.1, 8), (1.0, 0.05, 5),
             (2.5, 0.5, 4), (0.0, 0.25, 8), (2.5, 1.0, 4), (0.25, 0.5, 4), (0.5, 1.0, 4), (1.25, 0.1, 5)]
 
